@@ -1,6 +1,96 @@
-// Extension commands for area "ws" (owned by the builder of that area).
-// Return None when the command is not one of this module's.
-#[allow(unused_variables)]
+// Extension commands for area "ws" (property C13): the crate-private `WebsocketStreamWrapper`
+// (client/synchronous/threaded/ws_stream.rs) over an in-memory transport, through the add-only facade
+// gneiss_mqtt::verif::client2::ws.  Frames are produced / decoded by tungstenite's SERVER side here.
+//
+//   WSREAD <bufsize> <nreads> <item> <item> ...
+//        items: b<hex> binary message | t<hex> text message | p ping | `|` end of a burst (the transport reports
+//               WouldBlock once before the next burst) | `!` the transport fails
+//        answer: ok <result of read 1> <result of read 2> ...   (ok:<n>:x<bytes> | wouldblock | err:<kind> | panic)
+//   WSWRITE <w1,w2,...|-> <op> <op> ...
+//        transport write script: <n> accept at most n bytes | b WouldBlock; exhausted = accept everything
+//        ops: w<hex> Write::write | f Write::flush
+//        answer: ok <result per op> wire=[x<payload>,...]   payloads of the binary messages a server decodes from
+//                what the transport accepted (after draining the adapter's buffer with extra flushes)
+
+use gneiss_mqtt::verif::client2::ws::{Adapter, Step};
+use gneiss_mqtt::verif::text::{hex, unhex};
+use std::io::Cursor;
+use tungstenite::protocol::{Message, Role, WebSocket};
+
+fn server_frames(messages: &[Message]) -> Result<Vec<u8>, String> {
+    let mut server = WebSocket::from_raw_socket(Cursor::new(Vec::new()), Role::Server, None);
+    for m in messages { server.write(m.clone()).map_err(|e| format!("frame: {}", e))?; }
+    server.flush().map_err(|e| format!("frame flush: {}", e))?;
+    Ok(server.get_ref().get_ref().clone())
+}
+
+fn ws_read(toks: &[&str]) -> Result<String, String> {
+    if toks.len() < 2 { return Err("WSREAD: short".to_string()); }
+    let size = toks[0].parse::<usize>().map_err(|_| "bufsize")?;
+    let reads = toks[1].parse::<usize>().map_err(|_| "nreads")?;
+    let mut adapter = Adapter::new();
+    let mut burst: Vec<Message> = Vec::new();
+    let mut steps: Vec<Step> = Vec::new();
+    let mut flush_burst = |burst: &mut Vec<Message>, steps: &mut Vec<Step>| -> Result<(), String> {
+        if !burst.is_empty() { steps.push(Step::Data(server_frames(burst)?)); burst.clear(); }
+        Ok(())
+    };
+    for t in &toks[2..] {
+        match t.chars().next() {
+            Some('b') => burst.push(Message::Binary(unhex(&format!("x{}", &t[1..]))?)),
+            Some('t') => burst.push(Message::Text(String::from_utf8(unhex(&format!("x{}", &t[1..]))?).map_err(|_| "text: utf8")?)),
+            Some('p') => burst.push(Message::Ping(vec![1, 2])),
+            Some('|') => { flush_burst(&mut burst, &mut steps)?; steps.push(Step::Block); }
+            Some('!') => { flush_burst(&mut burst, &mut steps)?; steps.push(Step::Fail); }
+            _ => return Err(format!("WSREAD: bad item {}", t)),
+        }
+    }
+    flush_burst(&mut burst, &mut steps)?;
+    adapter.shared.lock().unwrap().incoming.extend(steps);
+    let mut out = vec!["ok".to_string()];
+    for _ in 0..reads { out.push(adapter.read(size)); }
+    Ok(out.join(" "))
+}
+
+fn ws_write(toks: &[&str]) -> Result<String, String> {
+    if toks.is_empty() { return Err("WSWRITE: short".to_string()); }
+    let mut adapter = Adapter::new();
+    if toks[0] != "-" {
+        for w in toks[0].split(',') {
+            let step = if w == "b" { None } else { Some(w.parse::<usize>().map_err(|_| "write script")?) };
+            adapter.shared.lock().unwrap().write_script.push_back(step);
+        }
+    }
+    let mut out = vec!["ok".to_string()];
+    for t in &toks[1..] {
+        match t.chars().next() {
+            Some('w') => out.push(adapter.write(&unhex(&format!("x{}", &t[1..]))?)),
+            Some('f') => out.push(adapter.flush()),
+            _ => return Err(format!("WSWRITE: bad op {}", t)),
+        }
+    }
+    // drain whatever the adapter still buffers, then decode what the transport accepted as a server would
+    adapter.shared.lock().unwrap().write_script.clear();
+    for _ in 0..4 { let _ = adapter.flush(); }
+    let written = adapter.shared.lock().unwrap().written.clone();
+    let mut server = WebSocket::from_raw_socket(Cursor::new(written), Role::Server, None);
+    let mut payloads = Vec::new();
+    loop {
+        match server.read() {
+            Ok(Message::Binary(d)) => payloads.push(hex(&d)),
+            Ok(Message::Text(s)) => payloads.push(format!("text:{}", hex(s.as_bytes()))),
+            Ok(_) => {}
+            Err(_) => break,
+        }
+    }
+    out.push(format!("wire=[{}]", payloads.join(",")));
+    Ok(out.join(" "))
+}
+
 pub fn handle(toks: &[&str]) -> Option<Result<String, String>> {
-    None
+    match toks[0] {
+        "WSREAD" => Some(ws_read(&toks[1..])),
+        "WSWRITE" => Some(ws_write(&toks[1..])),
+        _ => None,
+    }
 }
